@@ -434,7 +434,7 @@ def make_e_snap(params, part, nparts):
                                                                    names[bad[0]], tr['after'][bad[0]], tr['fresh'][bad[0]]),
                             signature='C05:snap:stale')
 
-    def h(L: int, k: int, m: int, w: int, f: int):
+    def h(L: int, k: int, m: int, w: int, f: int = 0):
         cL = pick(L, 3) + 2
         ck = pick(k, 3) + 1
         assume(ck < cL)
